@@ -1,6 +1,7 @@
 """Table of harness binaries and property checks used by /verif/run."""
 
 BINS = {
+    "v2in":    {"dir": "v2", "mod": "v2", "harness": ["v2in"]},
     "sets":    {"dir": "internal/sets", "mod": "root", "harness": ["rootin/setscommon", "rootin/sets"]},
     "intsets": {"dir": "stringclassifier/internal/sets", "mod": "root", "harness": ["rootin/setscommon", "rootin/intsets"]},
     "pq":      {"dir": "stringclassifier/internal/pq", "mod": "root", "harness": ["rootin/pq"]},
@@ -15,6 +16,14 @@ def part(bin, test, part, quick, thorough, shards=(4, 16), **kw):
 
 
 PROPS = {
+    "C01": {
+        "rule": "see parts: rapid-generated plantings of corpus documents in verified out-of-vocabulary context + enumeration of every embedded document; oracle = exact expected match (type, name, confidence 1.0, token span, lines) derived from construction; premise verified at token level",
+        "assumptions": ["two planted copies never share a physical line (known finding F18, witness replayed)", "line attribution of a document's words is taken from the tokenizer run on the document alone"],
+        "parts": [
+            part("v2in", "TestVerif_C01_Planted", "planted", 600, 8000, shards=(12, 16)),
+            part("v2in", "TestVerif_C01_EveryDoc", "every-document", 0, 0, shards=(4, 16), enum=True),
+        ],
+    },
     "C20": {
         "rule": "rapid-generated operation sequences interpreted against reference models (map / list) with the invariant "
                 "checked after every step, plus exhaustive small-scope enumerations; non-trivial and distinct are defined per part (see parts)",
